@@ -107,25 +107,48 @@ nng_init(const nng_init_params *params)
 	    ? params->num_resolver_threads
 	    : NNG_RESOLV_CONCURRENCY;
 
-	init_count++;
-
-	if (
-		((rv = nni_alloc_set(init_params.malloc_fn, init_params.calloc_fn, init_params.free_fn)) != 0) ||
-		((rv = nni_plat_init(&init_params)) != 0) ||
-	    ((rv = nni_taskq_sys_init(&init_params)) != 0) ||
-	    ((rv = nni_reap_sys_init()) != 0) ||
-	    ((rv = nni_aio_sys_init(&init_params)) != 0) ||
-	    ((rv = nni_tls_sys_init()) != 0)) {
-		nni_atomic_flag_reset(&init_busy);
-		nng_fini();
-		return (rv);
+	// Each subsystem cleans up after itself when its own initialization
+	// fails; we undo the ones that had already succeeded, in reverse
+	// order.  (nng_fini would tear down subsystems that never came up.)
+	if ((rv = nni_alloc_set(init_params.malloc_fn, init_params.calloc_fn,
+	         init_params.free_fn)) != 0) {
+		goto fail0;
 	}
+	if ((rv = nni_plat_init(&init_params)) != 0) {
+		goto fail0;
+	}
+	if ((rv = nni_taskq_sys_init(&init_params)) != 0) {
+		goto fail1;
+	}
+	if ((rv = nni_reap_sys_init()) != 0) {
+		goto fail2;
+	}
+	if ((rv = nni_aio_sys_init(&init_params)) != 0) {
+		goto fail3;
+	}
+	if ((rv = nni_tls_sys_init()) != 0) {
+		goto fail4;
+	}
+	init_count++;
 
 	// following never fails
 	nni_sp_tran_sys_init();
 
 	nng_log_notice(
 	    "NNG-INIT", "NNG library version %s initialized", nng_version());
+	nni_atomic_flag_reset(&init_busy);
+	return (rv);
+
+fail4:
+	(void) nni_aio_sys_drain();
+	nni_aio_sys_fini();
+fail3:
+	nni_reap_sys_fini();
+fail2:
+	nni_taskq_sys_fini();
+fail1:
+	nni_plat_fini();
+fail0:
 	nni_atomic_flag_reset(&init_busy);
 	return (rv);
 }
